@@ -1,23 +1,25 @@
-// Most general conformant upstream source of an operator (DESIGN 2.2-2.4).  Text parameters: $OP, $TP, $G, $GNAME, $HEAP, $I.
-#[derive(Clone, Copy)] pub struct UpTb {}
-#[derive(Clone, Copy)] pub struct UpSrc {}
-impl UpSrc { pub fn into(self) -> (r: Self) ensures r == self { self } }
-impl<$TP> Handle<$G, Message<Never, Never>> for UpTb {
+// Most general conformant upstream source of an operator (DESIGN 2.2-2.4).  Text parameters: $OP, $TP, $G, $GNAME, $HEAP, $I, $SFX (suffix of the handle / handler names), $UPF (ghost field of this upstream).
+#[derive(Clone, Copy)] pub struct UpTb$SFX {}
+#[derive(Clone, Copy)] pub struct UpSrc$SFX {}
+impl UpSrc$SFX { pub fn into(self) -> (r: Self) ensures r == self { self } }
+impl<$TP> Handle<$G, Message<Never, Never>> for UpTb$SFX {
     type HH = $HEAP;
     type CC = Cap;
     open spec fn gate(&self, k: int, h: $HEAP, g: $G, c: Cap, m: Message<Never, Never>) -> bool {
         if k == $GATE_UP_KIND { m is Pull || m is Terminate || m is Error }
-        else if k == $GATE_UP_GREETED { g.up.phase != Up::Idle && g.up.phase != Up::Subscribing }
-        else if k == $GATE_UP_PULL_LIVE { m is Pull ==> !up_over(g.up.phase) }
-        else if k == $GATE_UP_TERM_ONCE { !(m is Pull) ==> g.up.phase != Up::EndedByUs }
-        else if k == $GATE_UP_TERM_SELF { !(m is Pull) ==> g.up.phase != Up::EndedBySelf && g.up.phase != Up::ErroredBySelf }
+        else if k == $GATE_UP_GREETED { g.$UPF.phase != Up::Idle && g.$UPF.phase != Up::Subscribing }
+        else if k == $GATE_UP_PULL_LIVE { m is Pull && !dn_over(g.dn.phase) ==> g.$UPF.phase != Up::EndedByUs }
+        else if k == $GATE_UP_PULL_SELF { m is Pull && !dn_over(g.dn.phase) ==> g.$UPF.phase != Up::EndedBySelf && g.$UPF.phase != Up::ErroredBySelf }
+        else if k == $GATE_UP_PULL_OVER { m is Pull && dn_over(g.dn.phase) ==> !up_over(g.$UPF.phase) }
+        else if k == $GATE_UP_TERM_ONCE { !(m is Pull) ==> g.$UPF.phase != Up::EndedByUs }
+        else if k == $GATE_UP_TERM_SELF { !(m is Pull) ==> g.$UPF.phase != Up::EndedBySelf && g.$UPF.phase != Up::ErroredBySelf }
         else { true }
     }
-    open spec fn post(&self, g: $G, m: Message<Never, Never>) -> $G { $GNAME { up: up_send(g.up, m), ..g } }
+    open spec fn post(&self, g: $G, m: Message<Never, Never>) -> $G { $GNAME { $UPF: up_send(g.$UPF, m), ..g } }
     open spec fn needs_inv(&self, g: $G, m: Message<Never, Never>, p: int) -> bool { m is Pull }
     open spec fn extra(&self, h: Self::HH, g: $G, c: Self::CC, m: Message<Never, Never>) -> bool { true }
 }
-impl UpTb {
+impl UpTb$SFX {
     /// the operator talks to its upstream on the talkback it was greeted with
     #[verifier::exec_allows_no_decreases_clause]
     pub fn call<$TP>(&self, h: &mut $HEAP, g: &mut Ghost<$G>, c: &Cap, m: Message<Never, Never>)
@@ -33,12 +35,12 @@ impl UpTb {
     {
         proof { g@ = self.post(g@, m); }
         if matches!(m, Message::Terminate | Message::Error(_)) { return; }   // a terminated source is silent
-        up_events(h, g, c);
+        up_events$SFX(h, g, c);
     }
 }
 /// any finite sequence of admissible upstream events
 #[verifier::exec_allows_no_decreases_clause]
-pub fn up_events<$TP>(h: &mut $HEAP, g: &mut Ghost<$G>, c: &Cap)
+pub fn up_events$SFX<$TP>(h: &mut $HEAP, g: &mut Ghost<$G>, c: &Cap)
     requires
         INV!(*old(h), old(g)@, *c),
     ensures
@@ -52,34 +54,35 @@ pub fn up_events<$TP>(h: &mut $HEAP, g: &mut Ghost<$G>, c: &Cap)
             mono(h0, g0, *h, g@), up_rel(h0, g0, *h, g@, *c),
     {
         if nondet_bool() { break; }
-        if ghost_test(Ghost(g@.up.phase == Up::Live)) {
+        let ghost live = g@.$UPF.phase == Up::Live && ($EVGUARD);
+        if ghost_test(Ghost(live)) {
             if nondet_bool() {
-                if !c.pullable || ghost_test(Ghost(g@.up.data.len() < g@.up.pulls)) {
-                    $OP__source_talkback(h, g, c, Message::Data(nondet::<$I>()));
+                if !c.pullable || ghost_test(Ghost(g@.$UPF.data.len() < g@.$UPF.pulls)) {
+                    $OP__source_talkback$SFX(h, g, c, Message::Data(nondet::<$I>()));
                 }
             }
-            else if nondet_bool() { $OP__source_talkback(h, g, c, Message::Terminate); }
-            else { $OP__source_talkback(h, g, c, Message::Error(nondet_u64())); }
+            else if nondet_bool() { $OP__source_talkback$SFX(h, g, c, Message::Terminate); }
+            else { $OP__source_talkback$SFX(h, g, c, Message::Error(nondet_u64())); }
         }
     }
 }
-impl<$TP> Handle<$G, Message<Never, Tok_source_talkback>> for UpSrc {
+impl<$TP> Handle<$G, Message<Never, Tok_source_talkback$SFX>> for UpSrc$SFX {
     type HH = $HEAP;
     type CC = Cap;
-    open spec fn gate(&self, k: int, h: $HEAP, g: $G, c: Cap, m: Message<Never, Tok_source_talkback>) -> bool {
+    open spec fn gate(&self, k: int, h: $HEAP, g: $G, c: Cap, m: Message<Never, Tok_source_talkback$SFX>) -> bool {
         if k == $GATE_SUB_KIND { m is Handshake }
-        else if k == $GATE_SUB_ONCE { g.up.phase == Up::Idle }
+        else if k == $GATE_SUB_ONCE { g.$UPF.phase == Up::Idle }
         else if k == $GATE_SUB_OVER { !dn_over(g.dn.phase) }
         else { true }
     }
-    open spec fn post(&self, g: $G, m: Message<Never, Tok_source_talkback>) -> $G { $GNAME { up: UpLink { phase: Up::Subscribing, ..g.up }, ..g } }
-    open spec fn needs_inv(&self, g: $G, m: Message<Never, Tok_source_talkback>, p: int) -> bool { true }
-    open spec fn extra(&self, h: Self::HH, g: $G, c: Self::CC, m: Message<Never, Tok_source_talkback>) -> bool { true }
+    open spec fn post(&self, g: $G, m: Message<Never, Tok_source_talkback$SFX>) -> $G { $GNAME { $UPF: UpLink { phase: Up::Subscribing, ..g.$UPF }, ..g } }
+    open spec fn needs_inv(&self, g: $G, m: Message<Never, Tok_source_talkback$SFX>, p: int) -> bool { true }
+    open spec fn extra(&self, h: Self::HH, g: $G, c: Self::CC, m: Message<Never, Tok_source_talkback$SFX>) -> bool { $SUBPRE }
 }
-impl UpSrc {
+impl UpSrc$SFX {
     /// the operator subscribes to its upstream source
     #[verifier::exec_allows_no_decreases_clause]
-    pub fn call<$TP>(&self, h: &mut $HEAP, g: &mut Ghost<$G>, c: &Cap, m: Message<Never, Tok_source_talkback>)
+    pub fn call<$TP>(&self, h: &mut $HEAP, g: &mut Ghost<$G>, c: &Cap, m: Message<Never, Tok_source_talkback$SFX>)
         requires
             GATES!(self, *old(h), old(g)@, *c, m),
             self.extra(*old(h), old(g)@, *c, m),
@@ -87,12 +90,13 @@ impl UpSrc {
         ensures
             INV!(*final(h), final(g)@, *c),
             mono(*old(h), self.post(old(g)@, m), *final(h), final(g)@),
+            $SUBPOST,
     {
         proof { g@ = self.post(g@, m); }
         // a conformant source greets inside the subscribing call ...
-        $OP__source_talkback(h, g, c, Message::Handshake(UpTb {}));
+        $OP__source_talkback$SFX(h, g, c, Message::Handshake(UpTb$SFX {}));
         // ... and may emit, end or fail before returning
-        up_events(h, g, c);
+        up_events$SFX(h, g, c);
     }
 }
 
